@@ -1,9 +1,26 @@
 (* C08 — Read limit and memory bounds hold for every sender, including compressed input.
    Statements only; proofs in Proofs/ReaderP.v. *)
 From Coq Require Import List NArith ZArith Bool.
-From WS Require Import Base.Words Gen.Consts Model.Mask Model.Frame Model.Proto Model.RefDecoder Model.Reader Proofs.ReaderP.
+From WS Require Import Base.Words Gen.Consts Model.Mask Model.Frame Model.Proto Model.RefDecoder Model.Reader Model.Script Proofs.ReaderP Proofs.ReaderCutP.
 Import ListNotations.
 Open Scope N_scope.
+
+(* STREAM LEVEL.  With a read limit of L bytes, for every valid stream (any fragmentation, control frames, both roles) and
+   every sequence of positive read-buffer sizes: (a) if every message is at most L bytes, everything is delivered exactly as
+   without a limit; (b) the first message longer than L is never reported complete: the earlier messages are intact, its
+   read fails with the limit error after exactly L+1 bytes — a prefix of its payload — have been handed out, and the last
+   frame written is a Close frame with status 1009.  (Uncompressed; the limit counts delivered bytes, so for compressed
+   messages it applies after decompression: tied by the correspondence incl. > 1000:1 bombs.) *)
+Theorem C08_limit_stream : forall cfg inflate ms sizes e (L : nat),
+  Forall wf_smsg ms -> length sizes = length ms -> Forall (fun n => 0 < n)%nat sizes ->
+  let masked := role_eqb (rc_role cfg) Server in
+  let r := run cfg inflate (Z.of_nat L + 1)%Z (enc_script masked ms) e (read_ops sizes) in
+  (Forall (fun m => length (sm_payload m) <= L)%nat ms -> fst r = expected_obs ms) /\
+  (forall pre m post, ms = pre ++ m :: post -> Forall (fun m' => length (sm_payload m') <= L)%nat pre -> (L < length (sm_payload m))%nat ->
+     fst r = expected_obs pre ++ [ObReader (inl (sm_typ m)); ObMsg (firstn (S L) (sm_payload m)) (Some RELimit)] /\
+     exists rs, r_replies (snd r) = rs ++ [RpClose c_StatusMessageTooBig None]).
+Proof. exact reader_limit_stream. Qed.
+Print Assumptions C08_limit_stream.
 
 (* once limit+1 bytes of a message have been handed out, every further Read fails, hands out nothing and a
    Close frame with status 1009 is written — in every state, compressed or not *)
